@@ -177,7 +177,7 @@ CLAIMED = {
         "text": "Explicit-state BFS over all reachable states of real Entry objects and table cells (1-3 dimensional, "
                 "Dict and List dimensions, fresh and pre-initialised) under every batch of <=2 (quick) / <=3 (thorough) "
                 "candidates over {0,1,2}x{None,a,b}, for the 2x3 policy pairs, with the reference (optimum, optimal-tag set) "
-                "run in lock-step; every pair of reachable entry states combined under 4 combinators; all histories of "
+                "run in lock-step; every pair of reachable entry states combined under 7 combinators (three with tag-dependent values); all histories of "
                 "depth 4 (quick) / 5 (thorough) in every batch split replayed on fresh objects. Exhaustive within those bounds.",
         "design_ref": "6 (C16), 3 (E1 explorer)",
         "note": "Trusted: CPython, the `infinity` package ordering, refmodel/dpentry.py. Values outside {0,1,2} and falsy tags are not explored.",
